@@ -418,7 +418,7 @@ def check_L1_short_records(S, p):
         if samples[-1] not in listed:
             listed.append(samples[-1])              # a listed sample among the columns that go missing
         smap = [(s_, rng.choice(["A", "B", None])) for s_ in listed]
-        recs = ["".join(str(rng.choice([0, 1, 2])) for _ in range(ns))[:rng.choice([ns, ns - 1, ns - 2, 0, 1])] for _ in range(5)]
+        recs = ["".join(str(rng.choice([0, 1, 2])) for _ in range(ns))[:rng.choice([ns, ns - 1, ns - 2, 0, 1])] + rng.choice(["", "", "0", "120"]) for _ in range(5)]
         reqs.append({"op": "site_hist", "samples": samples, "map": E.map_json(smap), "project": None, "records": recs, "fresh": False, "after_error": "continue"})
     res = harness.both_builds(S, "C09", reqs, "short_records")
     for q, r in zip(reqs, res):
